@@ -1,4 +1,6 @@
 #define LOOP_array_plus_grid__requestChunk_1 \
-    __CPROVER_assigns(curr, g_starts, self->huge_holes, self->grid_bottom, self->grid_top, self->grid_current, __CPROVER_object_upto(self->medium_hole_list, sizeof(self->medium_hole_list)), __CPROVER_object_whole(self->data)) \
-    __CPROVER_loop_invariant(curr >= 0 && HOLE_OR_0(self, curr) && self->data[0] == 0) \
+    __CPROVER_assigns(curr, g_starts, g_refiled, self->huge_holes, self->grid_bottom, self->grid_top, self->grid_current, __CPROVER_object_whole(self->data)) \
+    __CPROVER_loop_invariant(curr >= 0 && (curr == 0 || (HOLE_OK(self, curr) && TAGSIZE(self, curr) >= LargeHoleSize)) && self->data[0] == 0 && (curr == 0 || ((size_t)curr != g_refiled && AWAY_FROM(self, curr, MED_HEAD(self, *numSlots))))) \
+    __CPROVER_loop_invariant(*numSlots >= LargeHoleSize || (self->medium_hole_list[*numSlots] >= 0 && (self->medium_hole_list[*numSlots] == 0 || (HOLE_OK(self, self->medium_hole_list[*numSlots]) && TAGSIZE(self, self->medium_hole_list[*numSlots]) == *numSlots)))) \
     __CPROVER_loop_invariant(self->huge_holes >= 0 && (self->huge_holes == 0 || (HOLE_OK(self, self->huge_holes) && TAGSIZE(self, self->huge_holes) >= LargeHoleSize && TAGSIZE(self, self->huge_holes) > self->max_request)))
+/* (the medium-list head that may serve this request keeps its tags while large holes are re-filed) */
